@@ -237,21 +237,27 @@ class C04(Prop):
     ID = 'C04'
     N_QUICK = 5000
     N_THOROUGH = 24000
-    RULE = ('random op sequences (<= 40 ops quick, <= 90 thorough) over <= 10 real virtual ports drawn from 12 ids '
-            '(prefix-related ids included): add / delete / re-add ports, assign expressions (random trees of depth 0-3 over '
+    RULE = ('random op sequences (<= 40 ops quick, <= 90 thorough) over <= 10 real ports: virtual ports drawn from 12 ids '
+            '(prefix-related ids included) and 0-3 statically configured driver ports (non-virtual, writable; DELETE refuses '
+            'them, PUT /ports keeps them): add / delete / re-add ports, assign expressions (random trees of depth 0-3 over '
             'ALL enabled functions of the live registry (arity and argument kinds introspected), leaves = $id of live / dangling / cycle-closing ports, $, @id, literals; 4 whitespace '
             'layouts; via PATCH /ports/<id> or set_attr), malformed texts, clear, disable/enable, direct check_loops '
-            'calls, restarts, PUT /ports restores, partial reloads (a port removed with its persisted record kept, others '
+            'calls, restarts, PUT /ports restores (a faithful backup of the hub in hub / id / random order, a backup that turns an '
+            'edge of a driver port round — the driver port reads q, the backup makes q read it and gives it another '
+            'expression, q first —, or a random description; the entry closing a cycle of the DOCUMENT aborts), partial reloads (a port removed with its persisted record kept, others '
             'edited meanwhile, the port loaded again by core.ports.load / POST / restart), and concurrent batches: 2-3 assignments started together (tasks created in a '
             'given order) after some of their ports got a running value sequence (PATCH /ports/<id>/sequence, long delays), '
             'were disabled, or have evaluations pending; chain / diamond scenarios steer towards long cycles. Non-trivial = at least one circular '
             'refusal AND one accepted assignment reading a live port; distinct = distinct (outcomes, final graph)')
     CORRESPONDENCE = ('Deps.step / Deps.checkLoops <-> api.funcs.ports.{post_ports,delete_port,patch_port}, '
-                      'BasePort.set_attr("expression"), core.expressions.check_loops, restart via core.vports.init')
+                      'BasePort.set_attr("expression"), core.expressions.check_loops, restart via core.ports.load; '
+                      'Deps.remaining / restoreOver <-> api.funcs.ports.put_ports')
     TRUSTED = ['in-memory JSON persistence driver; a restart is simulated in-process (save all, remove(persisted_data='
                'False), core.vports.init()); the real parser turns texts into the trees whose deps the oracle reads '
                '(text -> tree is property C03)']
-    ASSUMPTIONS = ['only local virtual ports (always writable); slave ports and port id mappings are out of scope',
+    ASSUMPTIONS = ['only local ports (virtual ones and writable driver ports); slave ports and port id mappings are out of scope',
+                   'the id of a driver port is never used for a virtual port (an entry of a PUT /ports body that names a '
+                   'driver port which is absent is left out of the request)',
                    'chains stay far below the Python recursion limit (check_loops_rec recurses once per port on a path)',
                    'atomicity of check_loops + store to _expression w.r.t. the event loop is not proved; it is watched by the '
                    'concurrent batch cases (result acyclic and equal to some serial order)']
